@@ -653,6 +653,8 @@ func NewRedisProc(c *FakeCluster, seeds int, strategy pbredis.ReadStrategy) (pro
 	if err := p.Start(); err != nil {
 		return nil, err
 	}
+	// (Address reads the listener field without the lock Serve publishes it under: do not look while it is being written)
+	time.Sleep(2 * time.Millisecond)
 	for i := 0; i < 400 && p.Address() == ""; i++ {
 		time.Sleep(time.Millisecond)
 	}
